@@ -200,6 +200,46 @@ impl BuildHasher for SeededState {
     }
 }
 
+/// Drop-in for `std::collections::HashSet` with harness-seeded iteration order.
+pub struct HashSet<K>(std::collections::HashSet<K, SeededState>);
+
+impl<K> HashSet<K> {
+    pub fn new() -> Self {
+        Self(std::collections::HashSet::with_hasher(SeededState::fresh()))
+    }
+}
+
+impl<K> Default for HashSet<K> {
+    fn default() -> Self {
+        Self::new()
+    }
+}
+
+impl<K> Deref for HashSet<K> {
+    type Target = std::collections::HashSet<K, SeededState>;
+    fn deref(&self) -> &Self::Target {
+        &self.0
+    }
+}
+
+impl<K> DerefMut for HashSet<K> {
+    fn deref_mut(&mut self) -> &mut Self::Target {
+        &mut self.0
+    }
+}
+
+impl<K: Clone> Clone for HashSet<K> {
+    fn clone(&self) -> Self {
+        Self(self.0.clone())
+    }
+}
+
+impl<K: std::fmt::Debug> std::fmt::Debug for HashSet<K> {
+    fn fmt(&self, f: &mut std::fmt::Formatter<'_>) -> std::fmt::Result {
+        self.0.fmt(f)
+    }
+}
+
 /// Drop-in for `std::collections::HashMap` with harness-seeded iteration order.
 pub struct HashMap<K, V>(std::collections::HashMap<K, V, SeededState>);
 
